@@ -571,8 +571,8 @@ func (s *c04Store) PendingBatch() error {
 	s.pendingAsked = true
 	return account.ErrNoPendingBatch
 }
-func (s *c04Store) MarkBatchComplete() error              { return nil }
-func (s *c04Store) LockID() (wtxmgr.LockID, error)        { return wtxmgr.LockID{1}, nil }
+func (s *c04Store) MarkBatchComplete() error       { return nil }
+func (s *c04Store) LockID() (wtxmgr.LockID, error) { return wtxmgr.LockID{1}, nil }
 
 // c04Auctioneer co-signs like the auctioneer server: it reconstructs the
 // spending transaction from what the trader sends and signs with its own key
@@ -689,7 +689,7 @@ type c04Spend struct {
 	sigs     []*c04SigRec
 	prevOuts []*wire.TxOut // outputs spent by the other inputs (nil = default)
 	buildErr string        // Pool refused to build the spend
-	poolWit  bool   // the witness was assembled by Pool's Spend* functions
+	poolWit  bool          // the witness was assembled by Pool's Spend* functions
 }
 
 const c04Amount = 2_000_000
@@ -1004,7 +1004,13 @@ func (s *c04OrderStore) StorePendingBatch(_ *order.Batch, _ []order.Nonce, _ [][
 // auctioneer's signatures for the accounts' CURRENT on-chain outputs and
 // judged by the engine.
 func c04RunMgrBatch(r *Run, p *c04Params) {
-	r.Evaluations++
+	j0 := c04Judged
+	defer func() {
+		// a case whose spends never reached the engine still counts once
+		if c04Judged == j0 {
+			r.Evaluations++
+		}
+	}()
 	r.Count("path/mgrbatch")
 	var c bCase
 	if err := json.Unmarshal(p.MgrCase, &c); err != nil {
@@ -1338,7 +1344,13 @@ type c04Ent struct {
 // assembles every witness with Pool's Spend* functions. Every account input
 // is then judged by the engine against its current on-chain output.
 func c04RunBatch(r *Run, p *c04Params) {
-	r.Evaluations++
+	j0 := c04Judged
+	defer func() {
+		// a case whose spends never reached the engine still counts once
+		if c04Judged == j0 {
+			r.Evaluations++
+		}
+	}()
 	r.Count("path/batch")
 	r.Count(fmt.Sprintf("batch/accounts-%d", len(p.Accts)))
 	auct := c04Priv(p.Auct)
@@ -1771,7 +1783,13 @@ func c04Run(r *Run, p *c04Params) {
 			sp = &c04Spend{buildErr: "unknown path"}
 		}
 	}()
-	r.Evaluations++
+	j0 := c04Judged
+	defer func() {
+		// a case whose spends never reached the engine still counts once
+		if c04Judged == j0 {
+			r.Evaluations++
+		}
+	}()
 	r.Count("path/" + p.Path)
 	r.Count(fmt.Sprintf("version/%d", p.Version))
 	if sp.buildErr == "" || ((p.Path == "withdraw" || p.Path == "deposit") && !p.StateExpired &&
@@ -1869,11 +1887,17 @@ func c04EmitMgrWT(r *Run, p *c04Params, sp *c04Spend) {
 	r.Count("mgrwt/" + method)
 }
 
+// c04Judged counts the spends handed to c04Judge (see Run.Evaluations).
+var c04Judged int
+
 // c04Judge runs the real engine on input sp.idx of sp.tx against the chain
 // account's CURRENT on-chain output, emits the model op and evaluates the
 // oracle. prevOuts (optional) are the outputs spent by all inputs.
 func c04Judge(r *Run, p *c04Params, replay interface{}, ck *c04Keys, sp *c04Spend, amount int64,
 	prevOuts []*wire.TxOut) {
+	// every spend judged by the engine is one evaluation
+	c04Judged++
+	r.Evaluations++
 
 	// manager paths with rescript: swap in the chain account's script
 	pkScript := ck.pkScript()
